@@ -14,7 +14,11 @@ import (
 	"verif/ev"
 )
 
-var lockFiles = map[string]bool{"spin_lock.go": true, "utxo.go": true, "utxo_cache.go": true, "xmodel.go": true, "state.go": true}
+// files of the state machine, the ledger and the engine glue: a race whose two accesses both sit in
+// these is a race of the code under test under the statement's workload (submissions, selections,
+// block plays, own blocks). Logging, metrics and the harness itself are left out.
+var lockFiles = map[string]bool{"spin_lock.go": true, "utxo.go": true, "utxo_cache.go": true, "xmodel.go": true, "state.go": true,
+	"ledger.go": true, "tx_verification.go": true, "meta.go": true, "tx.go": true, "miner.go": true, "chain.go": true, "utxo_item.go": true, "xmodel_cache.go": true, "xmodel_iterator.go": true, "snapshot.go": true, "block_agent.go": true}
 
 func runParent(r *ev.Run) {
 	// ---- (1) lock-protocol monitor on the SpinLock API ----
@@ -113,6 +117,36 @@ func runParent(r *ev.Run) {
 			r.Violation(parts[0], parts[1], br)
 		}
 	}
+	// ---- (2c) a producing node: own blocks through the real miner while clients submit through the real Chain ----
+	for bi := 0; bi < r.N(1, 6); bi++ {
+		c := spawn("producer", "x", r.N(30, 120), r.Seed*3000+int64(bi), 20*time.Minute)
+		if !judgeChild(r, c, "producer") {
+			continue
+		}
+		var pr producerResult
+		if json.Unmarshal(c.data, &pr) != nil {
+			r.Inconclusive("producer child wrote no result")
+			continue
+		}
+		for _, rep := range pr.Rounds {
+			if rep.Hung {
+				r.Violation("deadlock|producer-round-did-not-finish", "a round of a producing node under load did not finish within 90 s", rep)
+				continue
+			}
+			r.Case("producer|"+rep.Ops+fmt.Sprintf("|%d/%d", rep.Acknowledged, rep.Refused), rep.Blocks > 0 && rep.Acknowledged > 0)
+			r.Count("producer.rounds", 1)
+			r.Count("producer.own-blocks", rep.Blocks)
+			r.Count("producer.submissions.acknowledged", rep.Acknowledged)
+			r.Count("producer.submissions.refused", rep.Refused)
+			r.Count("producer.transactions-on-chain", rep.OnChain)
+			r.Count("producer.transactions-left-pending", rep.Pending)
+			r.Count("producer.queries", rep.Queries)
+			for _, p := range rep.Problems {
+				parts := strings.SplitN(p, " ## ", 2)
+				r.Violation(parts[0], parts[1]+"\nops: "+rep.Ops, rep)
+			}
+		}
+	}
 	// ---- (3) race detector reports of all children ----
 	raceReports(r)
 	r.Floor("rounds", 100)
@@ -123,6 +157,9 @@ func runParent(r *ev.Run) {
 	r.Floor("bursts.spend", 200)
 	r.Floor("bursts.key", 200)
 	r.Floor("bursts.select", 200)
+	r.Floor("producer.rounds", 20)
+	r.Floor("producer.own-blocks", 40)
+	r.Floor("producer.submissions.acknowledged", 200)
 	r.Assume("interleavings are those the Go scheduler produces on this machine under the race detector (plus yields inside the workload); schedules finer than that are out of reach")
 }
 
@@ -142,6 +179,9 @@ func judgeChild(r *ev.Run, c childRes, what string) bool {
 			r.Inconclusive("child " + what + " hit the watch-dog (no evidence of a lock cycle in the goroutine dump)")
 		}
 		return false
+	}
+	if c.exit == 66 && len(c.data) > 0 {
+		return true // the race detector's exit code: its reports are judged by raceReports, the child's result stands
 	}
 	if c.exit != 0 {
 		switch {
@@ -262,7 +302,7 @@ func raceReports(r *ev.Run) {
 			for _, f := range files {
 				fs = append(fs, strings.SplitN(f, ":", 2)[0])
 			}
-			r.Violation("race|"+strings.Join(fs, "<->")+"|"+k, "data race between two accesses in the lock-protocol files:\n"+samples[k], map[string]string{"pair": k})
+			r.Violation("race|"+strings.Join(fs, "<->")+"|"+k, "data race between two accesses in the files of the state machine / ledger / engine glue:\n"+samples[k], map[string]string{"pair": k})
 		}
 	}
 	sort.Strings(list)
